@@ -891,6 +891,21 @@ func (t *State) clearBalanceCache() {
 	t.xmodel.CleanCache()
 }
 
+// refersToTx tells whether tx spends an output or cites a key version created by the transaction refTxid
+func refersToTx(tx *pb.Transaction, refTxid []byte) bool {
+	for _, txInput := range tx.TxInputs {
+		if bytes.Equal(txInput.RefTxid, refTxid) {
+			return true
+		}
+	}
+	for _, txInputExt := range tx.TxInputsExt {
+		if bytes.Equal(txInputExt.RefTxid, refTxid) {
+			return true
+		}
+	}
+	return false
+}
+
 func (t *State) undoUnconfirmedTx(tx *pb.Transaction, txMap map[string]*pb.Transaction, txGraph tx.TxGraph,
 	batch kvdb.Batch, undoDone map[string]bool, pundoList *[]*pb.Transaction) error {
 	if undoDone[string(tx.Txid)] == true {
@@ -902,6 +917,11 @@ func (t *State) undoUnconfirmedTx(tx *pb.Transaction, txMap map[string]*pb.Trans
 	if exist {
 		for _, childTxid := range childrenTxids {
 			childTx := txMap[childTxid]
+			// the graph also orders the reader of a key version before the transaction that supersedes
+			// that version: such a successor does not build on "me" and is not undone with me
+			if !refersToTx(childTx, tx.Txid) {
+				continue
+			}
 			// 先递归回滚依赖“我”的交易
 			t.undoUnconfirmedTx(childTx, txMap, txGraph, batch, undoDone, pundoList)
 		}
